@@ -18,6 +18,7 @@ ASSUMPTIONS = [
 THRX = {"C17", "C18"}
 SEQX_ALSO = {"C01", "C15"}
 THRX_ALSO = {"C03", "C15"}
+MACX = {"C01", "C03", "C04", "C05", "C06", "C09", "C10", "C11", "C12", "C13", "C15", "C16"}
 
 
 def jobs(pid, tier, engine):
@@ -27,6 +28,9 @@ def jobs(pid, tier, engine):
     if pid in SEQX or pid in SEQX_ALSO:
         for i in range(ncpu):
             out.append(("seqx", ["seqx", "--property", pid, "--tier", tier, "--shard", f"{i}/{ncpu}"]))
+    if pid in MACX:
+        for i in range(ncpu):
+            out.append(("macx", ["macx", "--property", pid, "--tier", tier, "--shard", f"{i}/{ncpu}"]))
     if pid in THRX or pid in THRX_ALSO:
         n = int(subprocess.check_output([engine, "thrx", "--property", pid, "--tier", tier, "--count"], text=True).strip())
         # one process per driver: the set of registered caches is then exactly the driver's own
@@ -70,6 +74,27 @@ def evidence(pid, tier, records):
         cov["rule"] = ("breadth-first search over the real cache contents; a state is (store with values/hit counters/ages, queue, ghost ranks, clock phase); "
                        "a transition calls the real get/insert/insert_with_memory or advances the virtual clock; every fastrand draw is a branch; "
                        "exhaustive up to depth_completed per configuration (to closure where configs_closed counts it)")
+    suites = [v for (e, k, v) in records if k == "SUITE"]
+    if suites:
+        cov["macx"] = {
+            "functions": len(suites),
+            "operation_sequences": sum(x["histories"] for x in suites),
+            "histories_incl_environment_answers": sum(x["runs"] for x in suites),
+            "operations_executed": sum(x["steps"] for x in suites),
+            "enumerated_choice_points": sum(x["choice_points"] for x in suites),
+            "distinct_observation_prefixes": sum(x["distinct_observations"] for x in suites),
+            "depth_min": min(x["depth"] for x in suites),
+            "depth_max": max(x["depth"] for x in suites),
+        }
+        cov["states"] = cov.get("states", 0) + cov["macx"]["distinct_observation_prefixes"]
+        cov["transitions"] = cov.get("transitions", 0) + cov["macx"]["operations_executed"]
+        cov["traces_validated_against_impl"] = cov.get("traces_validated_against_impl", 0) + cov["macx"]["histories_incl_environment_answers"]
+        cov["configs"] = cov.get("configs", 0) + len(suites)
+        big = sorted(suites, key=lambda x: -x["runs"])[:2]
+        cov.setdefault("samples", []).extend({"function": x["label"], "alphabet": x["alphabet"], "depth": x["depth"], "histories": x["runs"], "case": x["sample"]} for x in big)
+        cov["exhaustive"] = False
+        cov["rule"] = (cov.get("rule", "") + " | macx: every operation sequence of the stated depth over the stated alphabet per generated function, every Ok/Err outcome, predicate verdict "
+                       "and random victim enumerated as a branch; states = distinct observation prefixes (return values, execution marks, key listings), transitions = operations executed").strip(" |")
     drivers = [v for (e, k, v) in records if k == "DRIVER"]
     if drivers:
         sched = sum(d["schedules"] for d in drivers)
